@@ -480,6 +480,13 @@ def run(chk, P):
     r07_12(chk, P)
     r07_13(chk, P)
     chk.floor('R07.13', 3)
+    chk.rule('R07.14', 'the byte position the handle believes in is the one the data source is at: the seek helper moves its '
+             'bookkeeping (vf->offset, the sync buffer) only after the seek callback succeeded (same obligations as R12.6).  A '
+             'helper that records the new offset first turns a failed seek into a handle whose retried seek is skipped as '
+             '"already there" and whose reported position belongs to other audio')
+    from rules import c12
+    c12.r12_6(common.Proxy(chk, 'R07.14'), P)
+    chk.floor('R07.14', 2)
     chk.floor('R07.12', 2)
     chk.rule('R07.9', 'the data offsets the seeks start from are the links\' first audio pages: every value stored into vf->dataoffsets[] '
              'that derives from a read of the stream position vf->offset sees the header fetch of that link as the last writer of '
